@@ -51,6 +51,7 @@ type Scenario struct {
 	Pollute   bool              `json:"pollute"` // a request with a mistyped payload is processed first
 	Name      int               `json:"name"`    // which resource name variant
 	Shared    bool              `json:"shared"`  // registered with AddHandler; the Call map is shared with a sibling handler that has a New handler
+	Owned     bool              `json:"owned"`   // explicit ownership lists in which a later, broader entry covers several earlier ones; no queue group
 	Wide      bool              `json:"wide"`    // the service owns ">" and is sent names of other services that merely start with its name
 }
 
@@ -206,6 +207,10 @@ func execute(sc Scenario, rng *rand.Rand) (rec, error) {
 	}
 	if sc.Wide {
 		s.SetOwnedResources([]string{">"}, []string{">"})
+	} else if sc.Owned {
+		own := []string{"test.first", nv.name, "test.probe", "test.>"}
+		s.SetOwnedResources(own, own)
+		s.SetQueueGroup("")
 	}
 	if nv.mount {
 		s.Route("users", func(m *res.Mux) {
@@ -1207,6 +1212,7 @@ func Run(c *core.Ctx) {
 		}
 		sc.Wide = rng.Intn(5) == 0
 		sc.Shared = rng.Intn(6) == 0
+		sc.Owned = rng.Intn(6) == 0
 		al := alphabet(&sc)
 		n := rng.Intn(5)
 		for j := 0; j < n; j++ {
